@@ -130,12 +130,16 @@ func main() {
 		sc.Buffer(make([]byte, 1<<20), 1<<28)
 		w := bufio.NewWriter(os.Stdout)
 		for sc.Scan() {
-			line := strings.TrimSpace(sc.Text())
-			if line == "" || strings.HasPrefix(line, "#") {
+			line := strings.Trim(sc.Text(), " \r\n")
+			if strings.TrimSpace(line) == "" || strings.HasPrefix(line, "#") {
 				continue
 			}
+			lean := ""
+			if i := strings.IndexByte(line, '\t'); i >= 0 {
+				line, lean = line[:i], strings.TrimSpace(line[i+1:])
+			}
 			res := execOp(line)
-			b, _ := json.Marshal(map[string]string{"op": line, "result": clip(res, 4000), "why": propertyFails(*prop, line, res)})
+			b, _ := json.Marshal(map[string]string{"op": line, "result": clip(res, 4000), "why": propertyFailsL(*prop, line, res, lean)})
 			fmt.Fprintln(w, string(b))
 			w.Flush()
 		}
@@ -160,12 +164,36 @@ func runCorr(prop string, seed uint64, n int, opsPath, outPath, statsPath, corpu
 	gw := bufio.NewWriterSize(gf, 1<<20)
 	st := newStats()
 	seen := map[string]bool{}
+	// every op is also put to the property oracle: a hit is a concrete input on which the implementation
+	// itself fails the property (independent of the model)
+	var hits []map[string]string
+	hitsByWhy := map[string]int{}
 	emit := func(op string) {
 		res := execOp(op)
 		fmt.Fprintln(ow, op)
 		fmt.Fprintln(gw, res)
 		st.add(op, res, seen)
+		if why := propertyFails(prop, op, res); why != "" {
+			key := whyKey(why)
+			hitsByWhy[key]++
+			if hitsByWhy[key] <= 3 || len(op) < 300 && hitsByWhy[key] <= 8 {
+				hits = append(hits, map[string]string{"op": op, "result": clip(res, 4000), "why": why})
+			}
+		}
 	}
+	defer func() {
+		f, err := os.Create(filepath.Join(filepath.Dir(outPath), "oracle.jsonl"))
+		if err != nil {
+			return
+		}
+		defer f.Close()
+		for _, h := range hits {
+			b, _ := json.Marshal(h)
+			fmt.Fprintln(f, string(b))
+		}
+		b, _ := json.Marshal(map[string]interface{}{"counts": hitsByWhy})
+		fmt.Fprintln(f, string(b))
+	}()
 	// corpus first
 	if corpus != "" {
 		files, _ := filepath.Glob(filepath.Join(corpus, "*.txt"))
@@ -208,4 +236,16 @@ func hashString(s string) uint64 {
 		h *= 1099511628211
 	}
 	return h
+}
+
+// whyKey: the reason with its numbers blanked, to group oracle hits
+func whyKey(why string) string {
+	var sb strings.Builder
+	for _, c := range why {
+		if c >= '0' && c <= '9' {
+			continue
+		}
+		sb.WriteRune(c)
+	}
+	return sb.String()
 }
